@@ -274,8 +274,143 @@ impl Prop for Format {
                         }
                     }
                 }
+                // ... nor on which type the same pattern text was last used with (a pattern that mixes date
+                // and time symbols means something different to Date, Time and DateTime)
+                if h % 4 == 1 && pattern.len() < 200 {
+                    for k in [Kind::Date, Kind::Time, Kind::DateTime] {
+                        if k != c.kind {
+                            let _ = format_value(k, Inst { day: if k == Kind::Time { 0 } else { c.v.day }, ns: if k == Kind::Date { 0 } else { c.v.ns } }, if k == Kind::Date { 0 } else { c.off }, &pattern);
+                        }
+                    }
+                    match format_value(c.kind, c.v, c.off, &pattern) {
+                        Ok(again) if again == want => {}
+                        Ok(again) => {
+                            return fail(
+                                "c11.depends_on_previous_call",
+                                format!("{:?} {} [{}] .format({:?}) after the same pattern was used on the other two types = {:?}", c.kind, fmt_instant(c.v.i()), c.off, pattern, want),
+                                format!("{:?}", again),
+                            )
+                        }
+                        Err(p) => return fail("c11.format_panic", "call after the same pattern was used on the other two types returns", p.short()),
+                    }
+                }
                 Verdict::Pass
             }
+        }
+    }
+}
+
+/// `Offset::Local` is an offset too: under an injected zone file and a pinned clock a value that
+/// carries it renders (and reads through its getters) as the instant shifted by the offset the
+/// zone prescribes for the *current* time (C18: "what Offset::Local applies to the current time"),
+/// wherever the value itself lies relative to the zone's transitions.
+#[derive(Debug, Clone, Hash, Serialize, Deserialize)]
+pub struct LocalCase {
+    pub zone: crate::tzsyn::Synth,
+    /// pinned clock, Unix seconds
+    pub now: i64,
+    pub kind: Kind,
+    pub v: Inst,
+    pub toks: Vec<Tok>,
+}
+
+pub struct LocalOffset;
+impl Prop for LocalOffset {
+    type Case = LocalCase;
+    const NAME: &'static str = "C11.local_offset";
+    const BYTES: usize = 800;
+    fn gen(u: &mut Unstructured<'_>) -> arbitrary::Result<LocalCase> {
+        let zone = crate::tzsyn::gen_synth(u)?;
+        let salt: u64 = u.arbitrary()?;
+        let ts = match crate::model::tz::read(&zone.build()) {
+            Ok(tzf) => super::c18::interesting_ts(&tzf, salt, 3),
+            Err(_) => vec![0],
+        };
+        let ts: Vec<i64> = ts.into_iter().filter(|t| (super::c18::TS_MIN..super::c18::TS_MAX).contains(t)).collect();
+        let now = if ts.is_empty() { 1_700_000_000 } else { ts[u.below(ts.len() as u64)? as usize] };
+        let at = if ts.is_empty() || u.coin(1, 5)? { now + u.range_i64(-400, 400)? * 86_400 } else { ts[u.below(ts.len() as u64)? as usize] + u.range_i64(-7_200, 7_200)? };
+        let kind = *u.choose(&[Kind::Time, Kind::DateTime, Kind::DateTime])?;
+        let sub = *u.choose(&[0i64, 0, 1, 500_000_000, 999_999_999])?;
+        let mut v = Inst::from_i((at as i128 + tl::EPOCH_1970_S as i128) * tl::NS + sub as i128);
+        if kind == Kind::Time {
+            v.day = 0;
+        }
+        let toks = gen_tokens(u, kind, 6)?;
+        Ok(LocalCase { zone, now, kind, v, toks })
+    }
+    fn check(c: &LocalCase, cx: &mut Cx) -> Verdict {
+        let r = check_local(c, cx);
+        astrolabe::verif::set_localtime(None);
+        astrolabe::verif::set_now(None);
+        r
+    }
+}
+
+fn check_local(c: &LocalCase, cx: &mut Cx) -> Verdict {
+    use astrolabe::{DateUtilities, TimeUtilities};
+    if c.kind == Kind::Date || !c.v.valid() || c.toks.len() > 64 || !(super::c18::TS_MIN..super::c18::TS_MAX).contains(&c.now) {
+        return Verdict::Skip("malformed case");
+    }
+    if c.kind == Kind::DateTime && !(cal::days_from_ymd(1800, 1, 1)..cal::days_from_ymd(2600, 1, 1)).contains(&c.v.day) {
+        return Verdict::Skip("malformed case");
+    }
+    let bytes = match super::c18::bytes_of(&super::c18::Src::Synth(c.zone.clone())) {
+        Ok(b) => b,
+        Err(_) => return Verdict::Skip("malformed case"),
+    };
+    let Ok(tzf) = crate::model::tz::read(&bytes) else { return Verdict::Skip("not a well-formed TZif file for the reference reader") };
+    let Some(off) = tzf.offset_at(c.now) else { return Verdict::Skip("clock before the first transition of the zone") };
+    if off.abs() > 86_399 {
+        return Verdict::Skip("zone offset outside +-23:59:59");
+    }
+    let pattern = fmt::pattern_of(&c.toks);
+    if fmt::tokenize(c.kind, &pattern) != c.toks {
+        return Verdict::Skip("pattern does not tokenise back to its tokens (ambiguous construction)");
+    }
+    let f = fmt::local_fields(c.kind, c.v.day, c.v.ns, off);
+    let want = match fmt::render(&c.toks, &f, off) {
+        Ok(w) => w,
+        Err(why) => return Verdict::Skip(why),
+    };
+    let value_ts = c.v.i().div_euclid(tl::NS) as i64 - tl::EPOCH_1970_S;
+    if c.kind == Kind::DateTime {
+        if let Some(at_value) = tzf.offset_at(value_ts) {
+            if at_value != off {
+                cx.nt("zone_offset_at_the_value_differs_from_the_one_now");
+            }
+        }
+    }
+    cx.label(if c.kind == Kind::Time { "time_with_Offset::Local" } else { "datetime_with_Offset::Local" });
+    if off != 0 {
+        cx.nt("nonzero_local_offset");
+    }
+    let now_dt = astrolabe::DateTime::from_timestamp(c.now);
+    let r = catch(|| {
+        astrolabe::verif::set_localtime(Some(Ok(bytes.clone())));
+        astrolabe::verif::set_now(Some(now_dt));
+        match c.kind {
+            Kind::Time => {
+                let t = mk_time(c.v.ns as u64).set_offset(Offset::Local);
+                (t.format(&pattern), (0, 0, 0, t.hour(), t.minute(), t.second(), t.nano()), t.get_offset() == Offset::Local)
+            }
+            _ => {
+                let d = mk_dt(c.v.i()).set_offset(Offset::Local);
+                (d.format(&pattern), (d.year(), d.month(), d.day(), d.hour(), d.minute(), d.second(), d.nano()), d.get_offset() == Offset::Local)
+            }
+        }
+    });
+    let what = format!("{:?} {} carrying Offset::Local, zone {:?} ({} transitions), clock {} (zone offset now {})", c.kind, fmt_instant(c.v.i()), c.zone.footer, c.zone.transitions.len(), c.now, off);
+    match r {
+        Err(p) => fail("c11.local_format_panic", format!("{} .format({:?}) = {:?}", what, pattern, want), p.short()),
+        Ok((got, getters, is_local)) => {
+            let want_getters = if c.kind == Kind::Time { (0, 0, 0, f.hour, f.minute, f.second, f.subsec) } else { (f.year as i32, f.month, f.dom, f.hour, f.minute, f.second, f.subsec) };
+            if getters != want_getters || !is_local {
+                return fail("c11.local_getters", format!("{}: getters (y, m, d, h, m, s, ns) = {:?}", what, want_getters), format!("{:?} (still Offset::Local: {})", getters, is_local));
+            }
+            if got != want {
+                return fail("c11.local_wrong_output", format!("{} .format({:?}) = {:?}", what, pattern, want), format!("{:?}", got));
+            }
+            Verdict::Pass
         }
     }
 }
@@ -339,4 +474,5 @@ pub fn run(env: &mut Env) {
     });
     env.exhaustive_parts.push(format!("C11: 19 symbols x widths 1..=10 x {} value classes{}", vals.len(), if t { "" } else { " (every 7th in quick)" }));
     env.run_random::<Format>(if t { 10_000_000 } else { 1_500_000 });
+    env.run_random::<LocalOffset>(if t { 1_000_000 } else { 60_000 });
 }
